@@ -17,6 +17,8 @@ def keyfn(r):
         cls = "check-tree"
     elif "check(str)" in err:
         cls = "check-str"
+    elif "mutate()" in err:
+        cls = "mutate"
     elif "repair" in err:
         cls = "repair"
     elif "parse" in err:
@@ -27,27 +29,27 @@ def keyfn(r):
 
 
 def main(tier, only):
-    run = common.Run("C18", tier, "other", [common.src_range("src/isla/solver.py", "ISLaSolver." + f) for f in ["check", "parse", "repair"]])
+    run = common.Run("C18", tier, "other", [common.src_range("src/isla/solver.py", "ISLaSolver." + f) for f in ["check", "parse", "repair", "mutate"]])
     nd, parts, to = (3, 8, 300) if tier == "quick" else (5, 16, 3000)
     stmts = "2" if tier == "quick" else "3"
-    cfgs = [dict(tag="part%d" % i, env={"VERIF_ND": str(nd), "VERIF_PART": "%d/%d" % (i, parts), "VERIF_STMTS": stmts}, only=["members"], timeout=to)
+    cfgs = [dict(tag="part%d" % i, env={"VERIF_ND": str(nd), "VERIF_PART": "%d/%d" % (i, parts), "VERIF_STMTS": stmts}, only=["members"], timeout=to, timing_dependent=True)
             for i in range(parts)]
     cfgs.append(dict(tag="", env={"VERIF_STMTS": stmts}, only=["non_members"], timeout=to))
     run.bounds = dict(inputs="all closed trees of the assignment grammar with <= %s statements whose code has %d base-8 digits, 9 non-member strings" % (stmts, nd),
                       constraints="10 constraints (universal, existential, negated universal, match expressions, before, count, str.contains, true)",
-                      sequences="check(tree), check(str), parse(skip_check=True), check(str), parse(str), check(parsed tree), repair(str), repair(tree) on ONE solver object per constraint")
+                      sequences="check(tree), check(str), parse(skip_check=True), check(str), parse(str), check(parsed tree), repair(str), repair(tree), mutate(tree) on ONE solver object per constraint")
     run.engines = dict(crosshair="crosshair-tool 0.0.110 on z3 4.11.2")
     run.trusted = ["reference semantics checks/refsem.py"]
     run.assumptions = ["[decoder]; the grammar is unambiguous, so check(tree) and check(str) must agree",
-                       "repair is only exercised on inputs that already satisfy the constraint; mutate is not exercised (both run into a TypeError from the "
-                       "installed `returns` library on the unchanged tree when they have to call the solver)"]
-    run.outside = ["that repaired / mutated invalid inputs satisfy the constraint (solver loop, see C01)", "other grammars and constraints"]
+                       "repair of a violating input may return nothing; a returned tree must be a closed tree of the grammar that satisfies the constraint; mutate (1-2 mutations) "
+                       "must return such a tree for every input; both run the solver loop with internal wall-clock timeouts, calls longer than 20 s are abandoned"]
+    run.outside = ["other grammars and constraints, more mutations per call"]
     res = xh.check_many("C18", HARNESS, cfgs, twin_timeout=120)
     xh.record(run, res, "", keyfn)
     return run.finish(
         "For every bounded input and constraint, on one long-lived solver object: check(tree) = check(str) = reference verdict; parse raises SyntaxError exactly "
         "for non-members and SemanticError exactly for violating members (never with skip_check); verdicts do not change after earlier calls; repair returns a "
-        "valid input unchanged.")
+        "valid input unchanged and otherwise nothing or a valid input; every tree returned by mutate is valid.")
 
 
 def replay(d):
